@@ -90,7 +90,7 @@ for pid, (level, tech, text, note, engine) in CHECKS.items():
 
 manifest = {
     "version": 1,
-    "setup_cmd": "cd /verif/harness && CARGO_NET_OFFLINE=true cargo build --release -p vcheck && CARGO_NET_OFFLINE=true cargo build --release -p vcheck_chrono",
+    "setup_cmd": "cd /verif/harness && export CARGO_NET_OFFLINE=true CARGO_TARGET_DIR=/verif/target && cargo build --release -p vcheck && cargo build --release -p vcheck_chrono",
     "hooks": {
         "guard": "mpd_client_verif",
         "enable": "no hooks are needed: every observation point is public API; checks build /repo unmodified (path dependencies of /verif/harness, RUSTFLAGS --cfg tokio_unstable affects only tokio)",
